@@ -1,5 +1,6 @@
 (* FilterProofsA85.v -- Model/A85.v against Spec/A85Spec.v. *)
-From LV Require Import Base.Bytes Gen.Filters Model.A85 Spec.A85Spec Proofs.FilterProofsPng.
+From LV Require Import Base.Bytes Model.Obj Gen.Filters Model.A85 Model.FiltersPinned Spec.A85Spec Spec.StreamSpec
+  Proofs.FilterProofsPng.
 From Coq Require Import Lia ZArith.
 
 Local Open Scope N_scope.
@@ -28,12 +29,12 @@ Proof. unfold strip_eod. rewrite strip_suffix_app. reflexivity. Qed.
 
 (* finite fact about the 85 digit characters, checked by computation (bound visible) *)
 Lemma digit_char_facts :
-  below_nat 85 (fun d => negb (byte_eqb (digit d) A85_Z) && negb (is_ascii_ws (digit d)) &&
+  below_nat 85 (fun d => negb (byte_eqb (digit d) A85_Z) && negb (is_skipped (digit d)) &&
                          in_digit_range (digit d) && (N_of_byte (digit d) - N_of_byte A85_LO =? d)) = true.
 Proof. vm_compute. reflexivity. Qed.
 
 Lemma digit_facts d : d < 85 ->
-  byte_eqb (digit d) A85_Z = false /\ is_ascii_ws (digit d) = false /\
+  byte_eqb (digit d) A85_Z = false /\ is_skipped (digit d) = false /\
   in_digit_range (digit d) = true /\ N_of_byte (digit d) - N_of_byte A85_LO = d.
 Proof.
   intro H. pose proof (below_nat_spec 85 _ digit_char_facts d ltac:(lia)) as F. cbv beta in F.
@@ -256,14 +257,21 @@ Qed.
 
 (* ---------- white space is ignored ---------- *)
 
-Lemma ws_not_z : byte_forallb (fun b => negb (is_ascii_ws b) || negb (byte_eqb b A85_Z)) = true.
+(* the characters the decoder skips are exactly the white-space characters of ISO 32000-1 table 1 (256 cases) *)
+Lemma skipped_is_white : byte_forallb (fun b => Bool.eqb (is_skipped b) (is_white b)) = true.
+Proof. vm_compute. reflexivity. Qed.
+
+Lemma is_skipped_white b : is_skipped b = is_white b.
+Proof. apply Bool.eqb_prop. exact (byte_forallb_spec _ skipped_is_white b). Qed.
+
+Lemma ws_not_z : byte_forallb (fun b => negb (is_skipped b) || negb (byte_eqb b A85_Z)) = true.
 Proof. vm_compute. reflexivity. Qed.
 
 Lemma loop_skip_ws : forall input buf cnt,
-  loop (filter (fun b => negb (is_ascii_ws b)) input) buf cnt = loop input buf cnt.
+  loop (filter (fun b => negb (is_skipped b)) input) buf cnt = loop input buf cnt.
 Proof.
   induction input as [|ch input IH]; intros buf cnt; [reflexivity|].
-  cbn [filter]. destruct (is_ascii_ws ch) eqn:W; cbn [negb].
+  cbn [filter]. destruct (is_skipped ch) eqn:W; cbn [negb].
   - rewrite IH. cbn [loop].
     pose proof (byte_forallb_spec _ ws_not_z ch) as F. cbv beta in F. rewrite W in F. cbn [negb orb] in F.
     apply negb_true_iff in F. rewrite F, W. reflexivity.
@@ -275,17 +283,92 @@ Proof.
       destruct (Nat.eqb (S cnt) A85_GROUP); rewrite IH; reflexivity.
 Qed.
 
-(* the five characters Rust's is_ascii_whitespace accepts are white space of ISO 32000; NUL is the one
-   ISO white-space character the decoder does not skip (it ends the data there) *)
-Lemma ws_subset_iso : byte_forallb (fun b => negb (is_ascii_ws b) || byte_in b white_space) = true.
+(* ---------- EOD ends the data; what follows it is not read ---------- *)
+
+Lemma tilde_facts : byte_eqb x7e A85_Z = false /\ is_skipped x7e = false /\ in_digit_range x7e = false.
+Proof. repeat split; vm_compute; reflexivity. Qed.
+
+Lemma loop_tilde : forall X Y buf cnt, loop (X ++ x7e :: Y) buf cnt = loop X buf cnt.
+Proof.
+  induction X as [|ch X IH]; intros Y buf cnt.
+  - destruct tilde_facts as (F1 & F2 & F3). cbn [app loop]. rewrite F1, F2, F3. reflexivity.
+  - cbn [app loop].
+    destruct (byte_eqb ch A85_Z).
+    + destruct cnt; [rewrite IH; reflexivity | reflexivity].
+    + destruct (is_skipped ch); [apply IH|].
+      destruct (negb (in_digit_range ch)); [reflexivity|].
+      destruct (accum buf (N_of_byte ch - N_of_byte A85_LO)); [|reflexivity].
+      destruct (Nat.eqb (S cnt) A85_GROUP); rewrite IH; reflexivity.
+Qed.
+
+Lemma strip_suffix_spec suf : forall l l', strip_suffix suf l = Some l' -> l = l' ++ suf.
+Proof.
+  induction l as [|x l IH]; intros l' H; cbn [strip_suffix] in H.
+  - destruct (bytes_eqb [] suf) eqn:E; [|discriminate].
+    apply bytes_eqb_eq in E. inversion H. subst. reflexivity.
+  - destruct (bytes_eqb (x :: l) suf) eqn:E.
+    + apply bytes_eqb_eq in E. inversion H. subst. reflexivity.
+    + destruct (strip_suffix suf l) as [l''|]; [|discriminate].
+      inversion H. subst. cbn [app]. f_equal. apply IH. reflexivity.
+Qed.
+
+Lemma loop_body data body :
+  filter (fun b => negb (is_white b)) body = encode data -> loop body 0 O = Ok data.
+Proof.
+  intro H. rewrite <- loop_skip_ws.
+  rewrite (filter_ext _ (fun b => negb (is_white b))) by (intro b; rewrite is_skipped_white; reflexivity).
+  rewrite H. apply loop_encode.
+Qed.
+
+(* the decoder agrees with the standard on every well-formed ASCII85 text: white space anywhere in the
+   body, EOD, then arbitrary bytes that a reader must not look at *)
+Theorem a85_agrees data text : a85_text data text -> A85.decode text = Ok data.
+Proof.
+  intros (body & rest & -> & H). unfold decode, strip_eod.
+  change (body ++ EOD ++ rest) with (body ++ x7e :: (x3e :: rest)).
+  destruct (strip_suffix A85_EOD (body ++ x7e :: x3e :: rest)) as [l|] eqn:E.
+  - apply strip_suffix_spec in E.
+    rewrite <- (loop_tilde l [x3e]). change (l ++ [x7e; x3e]) with (l ++ A85_EOD). rewrite <- E.
+    rewrite loop_tilde. apply loop_body. exact H.
+  - rewrite loop_tilde. apply loop_body. exact H.
+Qed.
+
+(* robustness beyond the standard: a text whose EOD marker is missing is decoded all the same *)
+Theorem a85_missing_eod data body :
+  filter (fun b => negb (is_white b)) body = encode data -> A85.decode body = Ok data.
+Proof.
+  intro H. unfold decode, strip_eod.
+  destruct (strip_suffix A85_EOD body) as [l|] eqn:E; [|apply loop_body; exact H].
+  apply strip_suffix_spec in E. subst body.
+  rewrite filter_app in H. change (filter (fun b => negb (is_white b)) A85_EOD) with [x7e; x3e] in H.
+  rewrite <- (loop_skip_ws l).
+  rewrite (filter_ext _ (fun b => negb (is_white b))) by (intro b; rewrite is_skipped_white; reflexivity).
+  rewrite <- (loop_tilde _ [x3e]). rewrite H. apply loop_encode.
+Qed.
+
+(* ---------- the defects that were repaired ----------
+   c049d3a: the five characters s 8 W - and a double quote denote 2^32: the multiplication check passes
+   (50529027 * 85 = 4294967295) and the unchecked addition of the last digit overflowed u32 (a panic, overflow
+   checks being on); the repaired code reports an error.
+   efed7db: NUL is a white-space character of the standard; the pinned decoder ended the data there. *)
+Lemma a85_overflow_is_error : A85.decode (bs "s8W-""~>") = Err EA85.
 Proof. vm_compute. reflexivity. Qed.
 
-Lemma ws_nul_not_skipped : is_ascii_ws x00 = false /\ byte_in x00 white_space = true.
-Proof. split; reflexivity. Qed.
+Lemma a85_overflow_pinned_panics : decode_v0 (bs "s8W-""~>") = Panic.
+Proof. vm_compute. reflexivity. Qed.
 
-(* ---------- the defect that was repaired (commit c049d3a) ----------
-   The five characters s 8 W - and a double quote denote 2^32: the multiplication check passes
-   (50529027 * 85 = 4294967295) and the addition of the last digit exceeded u32; the repaired code reports
-   an error. *)
-Lemma a85_overflow_is_error : A85.decode (bs "s8W-""~>") = Err EA85.
+Definition nul_witness_data : bytes := Eval cbv in bs "Hello, world".
+Definition nul_witness_text : bytes := Eval cbv in (bs "87cURD_" ++ [x00] ++ bs "*#TDfTZ)~>").
+
+Lemma nul_witness_is_text : a85_text nul_witness_data nul_witness_text.
+Proof. exists (bs "87cURD_" ++ [x00] ++ bs "*#TDfTZ)"), []. split; vm_compute; reflexivity. Qed.
+
+Lemma a85_nul_pinned_refuted :
+  exists data text, a85_text data text /\ decode_v0 text = Ok (firstn 5 data) /\ firstn 5 data <> data.
+Proof.
+  exists nul_witness_data, nul_witness_text. split; [exact nul_witness_is_text|].
+  split; [vm_compute; reflexivity | vm_compute; discriminate].
+Qed.
+
+Lemma a85_nul_repaired : A85.decode nul_witness_text = Ok nul_witness_data.
 Proof. vm_compute. reflexivity. Qed.
